@@ -101,3 +101,48 @@ func busyFrame() string {
 	n := runtime.Stack(buf, true)
 	return TopRepoFrame(string(buf[:n]))
 }
+
+// ---- heartbeat logical clock ----
+
+var (
+	hbOnce  sync.Once
+	hbCount int64
+	hbMu    sync.Mutex
+)
+
+// Heartbeats returns the number of 1 ms sleeps a background goroutine of this process has completed. It is a
+// logical clock for "nothing happened for a long time": a starved process produces fewer beats, so load can
+// only delay a verdict that is expressed in beats, never cause it.
+func Heartbeats() int64 {
+	hbOnce.Do(func() {
+		go func() {
+			for {
+				time.Sleep(time.Millisecond)
+				hbMu.Lock()
+				hbCount++
+				hbMu.Unlock()
+			}
+		}()
+	})
+	hbMu.Lock()
+	defer hbMu.Unlock()
+	return hbCount
+}
+
+// WaitBeats waits until done is closed or n heartbeats have passed; it reports whether done was closed.
+func WaitBeats(done <-chan struct{}, n int64) bool {
+	start := Heartbeats()
+	for Heartbeats()-start < n {
+		select {
+		case <-done:
+			return true
+		case <-time.After(2 * time.Millisecond):
+		}
+	}
+	select {
+	case <-done:
+		return true
+	default:
+		return false
+	}
+}
